@@ -9,7 +9,7 @@ import warnings
 import numpy as np
 import pandas as pd
 
-from . import common as C
+from . import common as C, genarith
 
 ANCHORS = [("shangrla/formats/Dominion.py", ["Dominion.prep_manifest", "Dominion.sample_from_manifest",
                                               "Dominion.sample_from_cvrs"]),
@@ -816,3 +816,6 @@ def run(ctx, res):
                        "searchsorted = first index with a[i] >= v (left) / > v (right) on a sorted list",
                        "identifiers are mapped to numbers by the harness (digit strings to their value, 'phantom' to 0, "
                        "order-preserving string table for sample_from_cvrs); id splitting on '-' / '_' is done by the harness"]
+    # regenerated tie: whole-function skeletons of merge_cvrs / from_raire / prep_manifest / sample_from_manifest and the
+    # lemmas tying them to Merge.v / Manifest.v (coq/gen/GenProofs_merge_skeletons.v), re-checked against the current source
+    genarith.regenerate(ctx.pid, "merge_skeletons", res)
